@@ -198,20 +198,19 @@ func (i *Inserter) ingestTableFromBlocks(columns []string, pk []uint32) ([]byte,
 	tblIdx := i.sortBlocks()
 	i.tbl.RowsCount = i.rowsCount
 
-	// write and save table
-	buf := bytes.NewBuffer(nil)
-	_, err = i.tbl.WriteTo(buf)
+	// write table
+	tblBuf := bytes.NewBuffer(nil)
+	_, err = i.tbl.WriteTo(tblBuf)
 	if err != nil {
 		return nil, err
 	}
-	sum, err := objects.SaveTable(i.db, buf.Bytes())
-	if err != nil {
-		return nil, err
-	}
-	i.logger.Info("saved table", "sum", sum)
+	// the table index and profile are stored under the table's hash. They are saved
+	// before the table itself so that a table that exists always has them.
+	arr := meow.Checksum(0, tblBuf.Bytes())
+	sum := arr[:]
 
 	// write and save table index
-	buf.Reset()
+	buf := bytes.NewBuffer(nil)
 	enc := objects.NewStrListEncoder(true)
 	_, err = objects.WriteBlockTo(enc, buf, tblIdx)
 	if err != nil {
@@ -235,6 +234,13 @@ func (i *Inserter) ingestTableFromBlocks(columns []string, pk []uint32) ([]byte,
 			return nil, err
 		}
 	}
+
+	// save table last
+	sum, err = objects.SaveTable(i.db, tblBuf.Bytes())
+	if err != nil {
+		return nil, err
+	}
+	i.logger.Info("saved table", "sum", sum)
 
 	return sum, nil
 }
